@@ -130,8 +130,26 @@ func (p *Prog) Func(pkg *packages.Package, name string) *types.Func {
 		}
 		return nil
 	}
-	f, _ := pkg.Types.Scope().Lookup(name).(*types.Func)
-	return f
+	if f, ok := pkg.Types.Scope().Lookup(name).(*types.Func); ok {
+		return f
+	}
+	// a function that was made a method of some value (readEnum -> (*parser).readEnum)
+	// keeps its name: accepted when exactly one method of the package has it
+	var only *types.Func
+	n := 0
+	for fn := range p.decls {
+		if p.owner[fn] != pkg || fn.Name() != name {
+			continue
+		}
+		if sig, ok := fn.Type().(*types.Signature); ok && sig.Recv() != nil {
+			only = fn
+			n++
+		}
+	}
+	if n == 1 {
+		return only
+	}
+	return nil
 }
 
 func (p *Prog) FuncDecl(pkg *packages.Package, name string) *ast.FuncDecl {
